@@ -331,18 +331,30 @@ def coq_eval(pid, shards, header, timeout=1500):
             f.write(header + "\n" + body + "\n")
         paths.append(p)
 
-    def run(p):
+    def run(p, tmo=timeout):
         # big list literals (thousands of strain sections) need a deep stack in coqc
         rc, out, err, dt = sh(["bash", "-c", f"ulimit -s unlimited 2>/dev/null || ulimit -s 1000000; "
                                              f"exec coqc -noglob -Q {COQ} V -Q {d} Cases {p}"],
-                              cwd=d, timeout=timeout)
+                              cwd=d, timeout=tmo)
         if rc != 0:
-            return out, (err or out)[-1500:]
-        return out, None
+            text = (err or out)
+            # killed by the watchdog or by the kernel (out of memory) without a Coq error: the machine
+            # was short of resources, which says nothing about the cases
+            starved = "Error" not in text and (rc < 0 or rc >= 128 or "TIMEOUT" in text[-200:])
+            return out, text[-1500:] or f"coqc exited with {rc}", starved
+        return out, None, False
 
     with coq_lock(shared=True):
         with concurrent.futures.ThreadPoolExecutor(max_workers=NCPU) as ex:
-            return list(ex.map(run, paths))
+            first = list(ex.map(run, paths))
+        res = []
+        for p, (out, e, starved) in zip(paths, first):
+            if starved:
+                # once more, alone and with three times the budget
+                log(f"coq_eval: {os.path.basename(p)} ran out of time or memory under load; retrying it alone")
+                out, e, starved = run(p, timeout * 3)
+            res.append((out, e))
+        return res
 
 
 def balance_shards(items, size, nshards=None, budget=None, per_item=None):
